@@ -3,7 +3,7 @@ from __future__ import annotations
 
 import ast
 
-from ..absint import new_interp, Interp, HList, HDict, HInst, NONE, const, is_const, fmt, fmt_seg, fmt_tree, mk_not
+from ..absint import new_interp, Interp, HList, HDict, HInst, NONE, const, is_const, fmt, fmt_seg, fmt_tree, mk_not, mk_cmp, mk_cond
 from ..names import N
 from ..common import AnalysisError, Report
 from ..facts import facts
@@ -104,6 +104,12 @@ class MatcherNF:
         fi = I.facts.func(q)
         selfname = fi.params()[0]
         I.types[("param", selfname)] = self.cls
+        # the dialect in force is a Dialect: its helper methods are inlined, its keyword-list properties stay symbolic
+        # (self.dialect.<role>_keywords is what the role tables are stated in)
+        dcls = I.facts.modules.get("gherkin.dialect").classes.get("Dialect") if I.facts.modules.get("gherkin.dialect") else None
+        if dcls is not None:
+            I.types[("attr", ("param", selfname), "dialect")] = dcls
+            I.opaque_attrs[dcls.qualname] = lambda nm: nm.endswith("_keywords")
         tree, rv, st = I.run(q)
         return tree, rv, st
 
@@ -793,7 +799,7 @@ def rule_other_text(rep: Report, rid="C13.text", cls_q=MQ, openers=('"""', "```"
     line, trimmed, raw = line_terms(m)
     ind = ("attr", m.selft, N.DS_INDENT)
     active = ("attr", m.selft, N.DS_ACTIVE)
-    C = ("bool", "or", (("cmp", "Lt", ind, const(0)), ("cmp", "Gt", ind, ("attr", line, "indent"))))
+    C = ("bool", "or", (mk_cmp("Lt", ind, const(0)), mk_cmp("Gt", ind, ("attr", line, "indent"))))
     rep.eq(rid, "match_Other reports every line, unconditionally, exactly once", 1, len(m.sinks), **_kw(m))
     for sn, ctx in m.sinks:
         a = sn[1]
@@ -802,7 +808,7 @@ def rule_other_text(rep: Report, rid="C13.text", cls_q=MQ, openers=('"""', "```"
         t = a.get("text")
         atoms = cond_atoms(t) if t else []
         eq_atoms = {o: ("cmp", "Eq", active, const(o)) for o in openers}
-        lt, gt = ("cmp", "Lt", ind, const(0)), ("cmp", "Gt", ind, ("attr", line, "indent"))
+        lt, gt = mk_cmp("Lt", ind, const(0)), mk_cmp("Gt", ind, ("attr", line, "indent"))
         allowed = set(eq_atoms.values()) | {lt, gt}
         rep.ob(rid, "the text depends only on the active delimiter and on 'indent to remove' vs the line's indent", set(atoms) <= allowed and {lt, gt} <= set(atoms), **kw,
                expected=[fmt(x, I) for x in sorted(allowed, key=str)], found=[fmt(x, I) for x in atoms])
